@@ -250,6 +250,16 @@ def dump_instance(args):
             for i in rr.sample(range(Hc.shape[0]), min(Hc.shape[0], 3)):
                 back = code.from_bsf(Hc[i])
                 rts.append({'row': i, 'bsf': rows[i], 'back': [[list(loc), pp] for loc, pp in back.items()]})
+            # a sparse row with explicitly STORED zeros (sum of two overlapping rows reduced mod 2 in place, as bsparse-style code does)
+            if Hc.shape[0] >= 2:
+                for t in range(2):
+                    i, j = rr.sample(range(Hc.shape[0]), 2)
+                    r_ = (Hc[i] + Hc[j]).tocsr()
+                    r_.data %= 2
+                    dense = np.asarray(r_.toarray()).ravel() % 2
+                    back = code.from_bsf(r_)
+                    rts.append({'row': [i, j], 'stored_zeros': int((r_.data == 0).sum()), 'bsf': dense_row(dense, n),
+                                'back': [[list(loc), pp] for loc, pp in back.items()]})
             rec['roundtrips'] = rts
         rec['ok'] = True
     except Exception as ex:  # construction failure is itself an observation
